@@ -32,7 +32,7 @@ def c14_case(draw):
     s["fact"] = draw(st.sampled_from(["DOFACT", "EQUILIBRATE"])); s["trans"] = draw(st.sampled_from(["N", "T"]))
     if s.get("nrhs", 1) == 0: s["nrhs"] = 1
     s["ldb"] = s["n"]; s["ldx"] = s["n"]
-    s["timeout_ms"] = 30000
+    s["timeout_ms"] = 12000
     case["api"] = s["api"]
     return case
 
@@ -55,6 +55,7 @@ def _stop(v):
     """stop enumerating this system only at a failure that is not a listed finding (the search continues behind known ones)"""
     global _KNOWN
     if _KNOWN is None: _KNOWN = core.load_known()
+    if v.get("v") == "timeout": return True        # a hang: stop enumerating this system (each further hang costs a full time-out)
     return core.is_failure(v) and core.match_known(_KNOWN, ID, v.get("sig", ""), v.get("detail", "")) is None
 
 
